@@ -57,6 +57,7 @@ type Ctx struct {
 	ctrFile   map[*FuncContract]*SpecFile
 	assumptionsUsed map[string]bool
 	curFile *SpecFile
+	binds   map[string]types.Type // interface key -> concrete type
 	cardSorts map[string]bool
 	codecs map[string]bool
 	goHandler func(g *FnGen, s *State, x *ssa.Go, key string) bool
@@ -76,7 +77,7 @@ func newCtx(repo string, patterns []string, specDirs []string) (*Ctx, error) {
 		contracts: map[string]*FuncContract{}, bound: map[string]bool{}, specs: map[string]*SpecFun{}, specFile: map[string]*SpecFile{},
 		compiled: map[string]*compiledSpec{}, ghosts: map[string]GhostDecl{}, props: map[string][]string{},
 		globals: map[string]int{}, typeIDs: map[string]int{}, fnIDs: map[*ssa.Function]int{}, fnByID: map[int]*ssa.Function{},
-		cardSorts: map[string]bool{}, codecs: map[string]bool{}, floatLits: map[string]string{}, ctrFile: map[*FuncContract]*SpecFile{}, assumptionsUsed: map[string]bool{}}
+		binds: map[string]types.Type{}, cardSorts: map[string]bool{}, codecs: map[string]bool{}, floatLits: map[string]string{}, ctrFile: map[*FuncContract]*SpecFile{}, assumptionsUsed: map[string]bool{}}
 	for _, d := range defaultDropped {
 		c.dropped = append(c.dropped, regexp.MustCompile(d))
 	}
@@ -163,6 +164,25 @@ func (c *Ctx) addFile(sf *SpecFile) error {
 	}
 	for _, g := range sf.Ghosts {
 		c.ghosts[g.Name] = g
+	}
+	for _, b := range sf.Binds {
+		saved := c.curFile
+		c.curFile = sf
+		var pkg *types.Package
+		if sf.PkgPath != "" {
+			pkg = c.typesPkgs[sf.PkgPath]
+		}
+		it := c.goTypeOf(b[0], pkg)
+		ct := c.goTypeOf(b[1], pkg)
+		c.curFile = saved
+		if _, ok := it.Underlying().(*types.Interface); !ok {
+			return fmt.Errorf("%s: bind: %s is not an interface", sf.Path, b[0])
+		}
+		if !types.Implements(ct, it.Underlying().(*types.Interface)) {
+			return fmt.Errorf("%s: bind: %s does not implement %s", sf.Path, b[1], b[0])
+		}
+		c.binds[types.TypeString(it, nil)] = ct
+		c.assumptionsUsed["A-WIRE: values of interface "+b[0]+" are of dynamic type "+b[1]+" (checked at each call as a precondition)"] = true
 	}
 	for _, s := range sf.Specs {
 		if _, dup := c.specs[s.Name]; dup {
@@ -299,12 +319,8 @@ func (c *Ctx) findFunc(key string) *ssa.Function {
 			}
 			fn = c.prog.MethodValue(sel)
 			if fn != nil && fn.Synthetic != "" {
-				// wrapper (e.g. promoted through pointer) — contracts bind to declared methods only
-				if fn.Signature.Recv() != nil {
-					if _, isPtr := fn.Signature.Recv().Type().(*types.Pointer); isPtr != ptr {
-						fn = nil
-					}
-				}
+				// wrapper (promoted method, pointer wrapper of a value method): contracts bind to declared methods only
+				fn = nil
 			}
 		} else {
 			fn = sp.Func(base)
